@@ -70,7 +70,10 @@ impl<'a> IntersectionParams<'a> {
     /// Check whether two almost-colinear lines are intersecting in the wrong place due to numerical
     /// inaccuracies.
     pub fn nearly_colinear_has_error(&self) -> bool {
-        self.denominator.pow(2) < self.line1.delta().dot_product(self.line2.delta()).abs()
+        let dot_product = self.line1.delta().dot_product(self.line2.delta());
+
+        // The squared denominator doesn't fit into an `i32` for longer lines.
+        i64::from(self.denominator).pow(2) < i64::from(dot_product.abs())
     }
 
     /// Compute the intersection point.
